@@ -196,7 +196,7 @@ def trace_part(chk, n_seg, n_file):
         araw = None
         if an_state == 'broken' and c:
             araw = fcsgen.encode_text(c, dl)[:-1] + 'zz' if len(c) % 2 else dl + dl + 'q' + dl
-        blob, lay = fcsgen.build(version=version, pairs=req + a, data=b'\x07', delim=dl, supp_pairs=b or None,
+        blob, lay = fcsgen.build(version=version, pairs=req + a, data=b'\x07', delim=dl, supp_pairs=b or None, stext_first=(counter[0] % 5 == 0),
                                  analysis_pairs=c or None, analysis_in=analysis_in, supp_lead=supp_lead,
                                  pad_text=pad, raw_analysis=araw, analysis_lead=an_lead, offset_style=ostyle)
         path = os.path.join(d0, 'f.fcs')
